@@ -36,7 +36,12 @@ fn pair() -> impl Strategy<Value = (P, P)> {
     prop_oneof![
         5 => (lonlat(), lonlat()),
         // nearly coincident
-        2 => (lonlat(), -9.0f64..-3.0, 0.0f64..360.0).prop_map(|(a, e, th)| {
+        // ... down to a few units in the last place (distinct points whose angular distance rounds to zero)
+        1 => (lonlat(), -3i64..4, -3i64..4).prop_map(|(a, kx, ky)| {
+            let nudge = |v: f64, n: i64| if v == 0.0 { n as f64 * 1e-300 } else { f64::from_bits((v.to_bits() as i64 + n) as u64) };
+            (a, (nudge(a.0, kx).clamp(-180.0, 180.0), nudge(a.1, ky).clamp(-90.0, 90.0)))
+        }),
+        2 => (lonlat(), -15.0f64..-3.0, 0.0f64..360.0).prop_map(|(a, e, th)| {
             let d = 10f64.powf(e);
             let b = ((a.0 + d * th.to_radians().cos()).clamp(-180.0, 180.0), (a.1 + d * th.to_radians().sin()).clamp(-90.0, 90.0));
             (a, b)
